@@ -73,6 +73,35 @@ CLAIMED.update({
              "trusted: serde/serde_json and SimpleMarker's Serialize as modelled by Derive/Json.lean, std::any::type_name rendering, h_derive.rs, Lean kernel, axioms propext/Quot.sound. Error = Infallible: a "
              "missing marker is an Option::unwrap panic. Integer ranges and string escaping not modelled."),
 })
+CLAIMED.update({
+    "C09": dict(
+        text="Lean theorems on the model of LazyUpdate / World::maintain (mutual block step/runScript/runAct/runQueue/maintain, arbitrarily nested lazily executed scripts): a ghost-instrumented mirror of the model "
+             "(ghost_is_the_model) logs every queue pop; runs_in_queue_order and queued_by_running_action_runs_later_same_maintain (events of one maintain = entry queue tags in order followed by the tags issued while it ran); "
+             "exactly_once (for any op list from the empty world and any fuel: handled tags strictly increasing hence no tag twice, across any number of maintains; handled ++ queued = all tags issued); nothing_left_over "
+             "(explicit fuel bound from a size measure of the queue, result independent of fuel beyond it); after_merge_and_purge (the queue starts on the merged and purged world); lazy_insert_dead_target_skipped / "
+             "lazy_insert_live_target_applied / lazy_remove_target_exact (generation-checked at the moment the action runs; only that storage and that index change). Correspondence: histories mixing lazy and direct ops with "
+             "nested scripts (closures creating/deleting entities and queueing further closures) are run on the real World; nested results are printed and compared; the abstract queue monitor (WorldSpec) checks FIFO order, "
+             "exactly-once and nothing-left-over on the implementation's transcript.",
+        technique="Lean 4 proof (conservation law + queue invariant by mutual induction on fuel; fuel-sufficiency by size measure) on a hand-written model + differential correspondence check + executable abstract-queue monitor",
+        design="7/C09", note=STORE_NOTE + " FIFO/left-over theorems assume maintain does not panic (excluded by Alloc.Inv and the storage invariants of C04/C05). A script that itself calls maintain, or drop_world inside a script, are covered by the ghost log (discard events) but not generated by the harness."),
+    "C12": dict(
+        text="Lean theorems for both wrappers over every inner kind (no reachability assumption, any allocator state per op): expected_events (every Storage API op that returns appends exactly the events of DESIGN Appendix C, "
+             "gated by the emission flag read at that moment); insertion_event_iff / removal_event_iff (exactly one Inserted / Removed iff the index gained / lost a component); modification_event_iff_mutable_access (flagged: one at the "
+             "call; deref-flagged: exactly one per mutable dereference; none without access); reads_emit_nothing; emission_off_emits_nothing; toggled_emission_events; replay_reproduces_membership (sequence level: replaying "
+             "Inserted/Removed over the initial mask gives the final mask, for histories without bulk clear); entity_deletion_emits_removed / world_deletion_emits_removed; events_read_returns_appended (reader cursor). "
+             "Correspondence: tracked-kind histories with the channel read after every mutating op on the real World (event stream and mask compared with the model; WorldSpec monitor computes the expected stream from the property's table).",
+        technique="Lean 4 proof (per-op event characterisation + replay law + induction over op sequences) on a hand-written model + differential correspondence check + executable expected-event monitor",
+        design="7/C12", note=STORE_NOTE + " Arbitrary world histories (create/maintain/lazy) are covered at the op-sequence level where each op carries its own allocator state; the lift to World.step is proved for single storage ops, the reader cursor and deleteComponents."),
+    "C20": dict(
+        text="Lean theorems: same_history_same_transcript (the model is a function of the history); hash_order_never_observable(_seq,_maintain) — non-interference: worlds that differ only in the internal order of hash-map storages "
+             "(the one seed-dependent piece of state, modelled as association-list order) give equal results for every op, every history, every fuel, and stay related; observables_independent_of_seed / _of_any_reordering "
+             "(re-shuffling every hash storage after every step with any seed or any per-step permutation leaves the transcript unchanged); destruction_order_only_permutes_ledger (destruction order inside one bulk operation only "
+             "permutes the multiset of destroyed values). Check: every harness command is executed three times on the real implementation — plain, fresh process with shifted heap layout and new hash seeds, fresh process iterating the "
+             "cases in reverse order — and the transcripts must be identical case by case; the plain run is also replayed through the deterministic Lean model.",
+        technique="Lean 4 proof (non-interference by mutual induction over the world model) + run-vs-run equality of real executions in fresh processes + differential correspondence check",
+        design="7/C20", note=STORE_NOTE + " Serialised output (save/load marker mapping order) and multi-storage join order belong to domains outside the World model and rest on the run-vs-run comparison of their harnesses when present (C06/C14 domains); "
+             "cross-storage drop order at world teardown is not seeded in the model (within-store order is)."),
+})
 checks = []
 for pid in ALL:
     if pid in CLAIMED:
